@@ -619,3 +619,52 @@ pub fn c07(seed: u64, thorough: bool) -> Scenario {
     b.tokio_knobs();
     b.finish()
 }
+
+/// World W2 (puppet): one real node, the harness plays everybody else.
+pub fn puppet(profile: &str, seed: u64, thorough: bool) -> Scenario {
+    let mut b = Builder::new(profile, seed);
+    b.sc.world = "puppet".into();
+    let n = *b.r.pick(&[4usize, 4, 5, 7]);
+    b.sc.n = n;
+    let real = b.r.below(n);
+    b.sc.stakes = vec![1; n];
+    if b.r.chance(0.35) {
+        // Unequal stakes; the puppets together must still hold a quorum.
+        loop {
+            let s: Vec<u32> = (0..n).map(|_| b.r.range(1, 4) as u32).collect();
+            let total: u64 = s.iter().map(|x| *x as u64).sum();
+            let q = 2 * total / 3 + 1;
+            if total - s[real] as u64 >= q {
+                b.sc.stakes = s;
+                break;
+            }
+        }
+    }
+    b.params((300, 900), false);
+    b.sc.net.base_lat_us = (100, 400);
+    b.sc.net.jitter_us = 100;
+    b.sc.net.connect_lat_us = (50, 200);
+    b.sc.duration_us = 0;
+    let steps = if thorough { b.r.range(150, 500) } else { b.r.range(80, 220) } as usize;
+    let heavy_invalid = matches!(profile, "C04" | "C20");
+    let cfg = crate::puppet::PuppetCfg {
+        real,
+        steps,
+        settle_us: 8_000,
+        p_invalid: if heavy_invalid { *b.r.pick(&[0.15, 0.3, 0.5]) } else { *b.r.pick(&[0.0, 0.05, 0.15]) },
+        p_timeout_episode: *b.r.pick(&[0.05, 0.15, 0.35]),
+        p_equivocate: *b.r.pick(&[0.0, 0.1, 0.3]),
+        p_gap: 0.1,
+        p_future: 0.1,
+        p_withhold_parent: 0.1,
+        p_duplicate: *b.r.pick(&[0.0, 0.05, 0.2]),
+        p_stale: *b.r.pick(&[0.0, 0.05, 0.15]),
+        p_payload: *b.r.pick(&[0.0, 0.1, 0.3]),
+        p_sync_probe: *b.r.pick(&[0.02, 0.08]),
+        p_mute_ack: 0.05,
+        only_mutations: vec![],
+    };
+    b.sc.script = serde_json::to_value(&cfg).unwrap();
+    b.tokio_knobs();
+    b.finish()
+}
